@@ -15,9 +15,9 @@ var c10Fields *eng.Kind[SrcCase]
 
 func init() {
 	c := eng.Register(&eng.Check{
-		ID:    "C10",
-		Title: "Referenced-field analysis is exact and sufficient",
-		Rule: "every formula up to n AST nodes over names {a, b, $l}, paths (a.b, a.b.c, a!.b, $l.x, a.true), calls (f(..), m.f(..), len(..), with spread, nested), assignment, conditional, array, typeof, parentheses, prefix and binary operators, plus the shapes the analysis must refuse ((a).b, f(a).b, 's'.b, this.b, [a].b): the reported list is compared with a collector that walks the independently parsed reference tree (required subset of reported subset of required + assignment targets, no duplicates, refusal exactly where a selector base is not a name/path, non-local variant); sufficiency by evaluating on full data maps and on the maps restricted / perturbed outside the reported names; distinct = distinct reported sets",
+		ID:          "C10",
+		Title:       "Referenced-field analysis is exact and sufficient",
+		Rule:        "every formula up to n AST nodes over names {a, b, $l}, paths (a.b, a.b.c, a!.b, $l.x, a.true), calls (f(..), m.f(..), len(..), with spread, nested), assignment, conditional, array, typeof, parentheses, prefix and binary operators, plus the shapes the analysis must refuse ((a).b, f(a).b, 's'.b, this.b, [a].b): the reported list is compared with a collector that walks the independently parsed reference tree (required subset of reported subset of required + assignment targets, no duplicates, refusal exactly where a selector base is not a name/path, non-local variant); sufficiency by evaluating on full data maps and on the maps restricted / perturbed outside the reported names; distinct = distinct reported sets",
 		TrustedBase: []string{"internal/ref/parse.go", "reference field collector in checks/c10.go"},
 		Assumptions: []string{"whether a pure assignment target counts as read is not fixed: both readings pass", "call-on-call and non-path callees are not generated (statement silent)"},
 		Run:         runC10,
